@@ -151,19 +151,54 @@ pub fn print_stderr(info: &str, cmd: &Command, cl: &CommandLine) {
     }
 }
 
-/// Output that the command line sends elsewhere is not captured.
-fn is_redirected(cmd: &Command, fd: &str) -> bool {
-    cmd.redirects_to.iter().any(|x| x.0 == fd)
+/// Where what a captured builtin writes to a descriptor ends up.
+#[derive(Clone, Copy, PartialEq)]
+enum Sink {
+    /// the captured stdout
+    Out,
+    /// the captured stderr
+    Err,
+    /// wherever the command line sends it: not captured
+    Elsewhere,
+}
+
+/// Redirections apply from left to right; `N>&M` copies M as it stands.
+fn captured_sink(cmd: &Command, fd: &str) -> Sink {
+    let mut out = Sink::Out;
+    let mut err = Sink::Err;
+    for item in &cmd.redirects_to {
+        let to = if item.2 == "&1" {
+            out
+        } else if item.2 == "&2" {
+            err
+        } else {
+            Sink::Elsewhere
+        };
+        if item.0 == "1" {
+            out = to;
+        } else if item.0 == "2" {
+            err = to;
+        }
+    }
+    if fd == "1" {
+        out
+    } else {
+        err
+    }
 }
 
 pub fn print_stderr_with_capture(info: &str, cr: &mut CommandResult,
                                  cl: &CommandLine, cmd: &Command,
                                  capture: bool) {
     cr.status = 1;
-    if capture && !is_redirected(cmd, "2") {
-        cr.stderr = info.to_string();
-    } else {
+    if !capture {
         print_stderr(info, cmd, cl);
+        return;
+    }
+    match captured_sink(cmd, "2") {
+        Sink::Out => cr.stdout = info.to_string(),
+        Sink::Err => cr.stderr = info.to_string(),
+        Sink::Elsewhere => print_stderr(info, cmd, cl),
     }
 }
 
@@ -171,9 +206,13 @@ pub fn print_stdout_with_capture(info: &str, cr: &mut CommandResult,
                                  cl: &CommandLine, cmd: &Command,
                                  capture: bool) {
     cr.status = 0;
-    if capture && !is_redirected(cmd, "1") {
-        cr.stdout = info.to_string();
-    } else {
+    if !capture {
         print_stdout(info, cmd, cl);
+        return;
+    }
+    match captured_sink(cmd, "1") {
+        Sink::Out => cr.stdout = info.to_string(),
+        Sink::Err => cr.stderr = info.to_string(),
+        Sink::Elsewhere => print_stdout(info, cmd, cl),
     }
 }
